@@ -18,7 +18,8 @@ import math
 
 from raysect.core import Point3D, Vector3D
 from raysect.optical import Spectrum
-from cherab.core import Beam, Plasma, Species, Maxwellian
+from cherab.core import Beam, Plasma, Species, Maxwellian, DistributionFunction
+import numpy as np
 from cherab.core.beam import BeamAttenuator
 from cherab.core.atomic import Line, AtomicData, BeamCXPEC, BeamPopulationRate, BeamEmissionPEC
 from cherab.core.atomic import elements as _el
@@ -52,20 +53,37 @@ def g_att(x, y, z):
     return 1.0 + 0.5 * x + 0.25 * y + 0.125 * z
 
 
+def species_values(s, x, y, z):
+    """what the distribution of the species description s returns at (x, y, z).  form "fn": three Python
+    callables of the position; "const" / "const_np" / "const_int": position-independent constants handed to
+    Maxwellian as Python floats / numpy scalars / Python ints (autowrapped by the implementation)"""
+    if s.get("form", "fn") == "fn":
+        gv = g_vel(x, y, z)
+        return (s["n0"] * g_dens(x, y, z), s["t0"] * g_temp(x, y, z), tuple(c * gv for c in s["v0"]))
+    return (s["n0"], s["t0"], tuple(s["v0"]))
+
+
 def species_at(case, point=None):
     """values of every species' distribution at the plasma point: [(el, charge, n, T, (vx, vy, vz))]"""
     x, y, z = point or case["plasma_point"]
-    out = []
-    for s in case["species"]:
-        gv = g_vel(x, y, z)
-        out.append((s["el"], s["charge"], s["n0"] * g_dens(x, y, z), s["t0"] * g_temp(x, y, z),
-                    tuple(c * gv for c in s["v0"])))
-    return out
+    return [(s["el"], s["charge"]) + species_values(s, x, y, z) for s in case["species"]]
+
+
+def effective_species(raw):
+    """dict semantics of Composition: an entry keeps the position of the first occurrence of its
+    (element, charge) key and the value of the last"""
+    order, last = [], {}
+    for s in raw:
+        k = (s["el"], s["charge"])
+        if k not in last:
+            order.append(k)
+        last[k] = s
+    return [copy.deepcopy(last[k]) for k in order]
 
 
 def bfield_at(case, point=None):
     x, y, z = point or case["plasma_point"]
-    gb = g_b(x, y, z)
+    gb = g_b(x, y, z) if case.get("b_form", "fn") == "fn" else 1.0
     return tuple(c * gb for c in case["b0"])
 
 
@@ -134,6 +152,26 @@ class Recorder(LineShapeModel):
         return spectrum
 
 
+class LogElectrons(DistributionFunction):
+    """electron distribution that records being sampled: BeamEmissionMultiplet.add_line reads it first, so a
+    record means that BeamEmissionLine.emission reached its line shape"""
+
+    def __init__(self, ne, te, log):
+        super().__init__()
+        self.ne, self.te, self.log = ne, te, log
+
+    def density(self, x, y, z):
+        self.log.append(("electron", "density", (x, y, z)))
+        return self.ne
+
+    def effective_temperature(self, x, y, z):
+        self.log.append(("electron", "temperature", (x, y, z)))
+        return self.te
+
+    def bulk_velocity(self, x, y, z):
+        return Vector3D(0, 0, 0)
+
+
 class StubData(AtomicData):
     def __init__(self, case, log):
         self.case, self.log = case, log
@@ -160,28 +198,33 @@ class StubData(AtomicData):
         return StubPEC(i, self.case["pecs"][i], self.log)
 
 
-def build_plasma(case):
+def composition_arg(sps, form):
+    """the iterable handed to plasma.composition / composition.set: list, tuple or generator"""
+    if form == "tuple":
+        return tuple(sps)
+    if form == "gen":
+        return (x for x in sps)
+    return sps
+
+
+def build_plasma(case, log):
     plasma = Plasma()
-    b0 = case["b0"]
-    plasma.b_field = lambda x, y, z: Vector3D(b0[0] * g_b(x, y, z), b0[1] * g_b(x, y, z), b0[2] * g_b(x, y, z))
-    sps = []
-    for s in case["species"]:
-        el = ELEMENTS[s["el"]]
-
-        def dens(x, y, z, n0=s["n0"]):
-            return n0 * g_dens(x, y, z)
-
-        def temp(x, y, z, t0=s["t0"]):
-            return t0 * g_temp(x, y, z)
-
-        def vel(x, y, z, v0=s["v0"]):
-            gv = g_vel(x, y, z)
-            return Vector3D(v0[0] * gv, v0[1] * gv, v0[2] * gv)
-
-        sps.append(Species(el, s["charge"], Maxwellian(dens, temp, vel, el.atomic_weight * AMU)))
-    plasma.composition = sps
-    plasma.electron_distribution = Maxwellian(1.0e19, 100.0, Vector3D(0, 0, 0), 9.1093837015e-31)
+    plasma.b_field = make_bfield(case["b0"], case.get("b_form", "fn"))
+    raw = case.get("species_raw") or case["species"]
+    plasma.composition = composition_arg([make_species(s) for s in raw], case.get("comp_form", "list"))
+    plasma.electron_distribution = LogElectrons(1.0e19, 100.0, log)
     return plasma
+
+
+def number_form(x, form):
+    """the same value as a Python float, a Python int or a numpy scalar (int only when integral)"""
+    if form == "int" and float(x) == int(x):
+        return int(x)
+    if form == "np":
+        return np.float64(x)
+    if form == "np_int":
+        return np.int64(x)
+    return x
 
 
 def build_beam(case, plasma, data, log):
@@ -189,12 +232,35 @@ def build_beam(case, plasma, data, log):
     beam = Beam()
     beam.plasma = plasma
     beam.atomic_data = data
-    beam.energy = b["energy"]
+    beam.energy = number_form(b["energy"], b.get("form", "float"))
     beam.element = ELEMENTS[b["element"]]
-    beam.length = b["length"]
+    beam.length = number_form(b["length"], b.get("form", "float"))
     beam.temperature = 10.0
     beam.attenuator = StubAttenuator(b["att0"], log)
     return beam
+
+
+def make_cx_model(case_or_cfg, ln, beam, plasma, data):
+    """BeamCXLine attached through beam.models (the caller does that) or configured through its constructor"""
+    line = Line(ELEMENTS[ln["el"]], number_form(ln["charge"], "np_int" if case_or_cfg.get("line_np") else "float"),
+                tuple(ln["transition"]))
+    kw = {"lineshape": Recorder}
+    if case_or_cfg.get("lineshape") == "default":
+        kw = {}                         # default argument: GaussianLine; the radiance is read back from the spectrum
+    elif case_or_cfg.get("ls_kwargs"):
+        kw["lineshape_kwargs"] = {"integrator": None}
+    if case_or_cfg.get("attach", "models") == "constructor":
+        return BeamCXLine(line, beam, plasma, data, **kw)
+    return BeamCXLine(line, **kw)
+
+
+def make_bes_model(case_or_cfg, element, beam, plasma, data):
+    line = Line(ELEMENTS[element], 0, (3, 2))
+    r = case_or_cfg.get("bes_ratios")
+    kw = {} if not r else {"sigma_to_pi": r[0], "sigma1_to_sigma0": r[1], "pi2_to_pi3": r[2], "pi4_to_pi3": r[3]}
+    if case_or_cfg.get("attach", "models") == "constructor":
+        return BeamEmissionLine(line, beam, plasma, data, **kw)
+    return BeamEmissionLine(line, **kw)
 
 
 def error_code(exc):
@@ -211,7 +277,7 @@ def run_case(case):
     """returns {"code": 0 untouched | 1 line added | 2.. error, "radiance": float, "log": [...], "error": str}"""
     log = []
     Recorder.LOG = log
-    plasma = build_plasma(case)
+    plasma = build_plasma(case, log)
     px, py, pz = case["plasma_point"]
     if case["kind"] == "plasma":
         out = {"log": log, "error": "", "radiance": 0.0}
@@ -221,6 +287,7 @@ def run_case(case):
             out["code"] = 1
         except ValueError as e:
             out["zeff"], out["code"], out["error"] = 0.0, 3, repr(e)
+        out["composition"] = composition_view(plasma)
         return out
     data = StubData(case, log)
     beam = build_beam(case, plasma, data, log)
@@ -239,12 +306,18 @@ def run_case(case):
 CAUGHT = (RuntimeError, ValueError, AttributeError, TypeError)
 
 
-def _eval_cx(model, bp, pp, direction, obs, log):
-    spectrum = Spectrum(600.0, 700.0, 4)
+def _eval_cx(model, bp, pp, direction, obs, log, default_shape=False):
+    # default_shape: one bin that holds the whole Gaussian (>= 8 widths to either edge): sample * delta is the
+    # wavelength integral of what the real GaussianLine rendered
+    spectrum = Spectrum(156.0, 1156.0, 1) if default_shape else Spectrum(600.0, 700.0, 4)
     try:
         res = model.emission(bp, pp, direction, obs, spectrum)
     except CAUGHT as e:
         return {"code": error_code(e), "radiance": 0.0, "log": log, "error": repr(e)}
+    if default_shape:
+        total = float(res.samples[0]) * res.delta_wavelength
+        reached = any(l[0] == "cx" for l in log) or total != 0.0
+        return {"code": 1 if reached else 0, "radiance": total, "log": log, "error": ""}
     lines = [l for l in log if l[0] == "line"]
     untouched = res is spectrum and not any(res.samples)
     if not lines:
@@ -256,26 +329,28 @@ def _eval_cx(model, bp, pp, direction, obs, log):
 def _eval_bes(model, bp, pp, direction, obs, log):
     # one bin that contains every Stark component many widths away from its edges: each Gaussian
     # integrates to exactly 1.0 in double, so sample * delta is the wavelength integral
-    spectrum = Spectrum(556.0, 756.0, 1)
+    spectrum = Spectrum(456.0, 856.0, 1)
     try:
         res = model.emission(bp, pp, direction, obs, spectrum)
     except CAUGHT as e:
         return {"code": error_code(e), "radiance": 0.0, "log": log, "error": repr(e)}
     total = float(res.samples[0]) * res.delta_wavelength
-    called = any(l[0] == "pec" for l in log) or total != 0.0
+    called = any(l[0] == "electron" for l in log) or total != 0.0
     return {"code": 1 if called else 0, "radiance": total, "log": log, "error": ""}
 
 
 def _run_emission(case, beam, bp, pp, direction, obs, log):
     b = case["beam"]
+    attach = case.get("attach", "models") == "models"
     if case["kind"] == "cx":
-        ln = case["line"]
-        model = BeamCXLine(Line(ELEMENTS[ln["el"]], ln["charge"], tuple(ln["transition"])), lineshape=Recorder)
-        beam.models = [model]
-        return _eval_cx(model, bp, pp, direction, obs, log)
+        model = make_cx_model(case, case["line"], beam, beam.plasma, beam.atomic_data)
+        if attach:
+            beam.models = [model]
+        return _eval_cx(model, bp, pp, direction, obs, log, case.get("lineshape") == "default")
     if case["kind"] == "bes":
-        model = BeamEmissionLine(Line(ELEMENTS[b["element"]], 0, (3, 2)))
-        beam.models = [model]
+        model = make_bes_model(case, b["element"], beam, beam.plasma, beam.atomic_data)
+        if attach:
+            beam.models = [model]
         return _eval_bes(model, bp, pp, direction, obs, log)
     raise ValueError(case["kind"])
 
@@ -334,6 +409,11 @@ class HistData(AtomicData):
 
 def make_species(s):
     el = ELEMENTS[s["el"]]
+    form = s.get("form", "fn")
+    charge = np.int64(s["charge"]) if s.get("charge_np") else s["charge"]
+    if form != "fn":
+        conv = {"const": float, "const_np": np.float64, "const_int": lambda v: int(v) if float(v) == int(v) else float(v)}[form]
+        return Species(el, charge, Maxwellian(conv(s["n0"]), conv(s["t0"]), Vector3D(*s["v0"]), el.atomic_weight * AMU))
 
     def dens(x, y, z, n0=s["n0"]):
         return n0 * g_dens(x, y, z)
@@ -345,10 +425,12 @@ def make_species(s):
         gv = g_vel(x, y, z)
         return Vector3D(v0[0] * gv, v0[1] * gv, v0[2] * gv)
 
-    return Species(el, s["charge"], Maxwellian(dens, temp, vel, el.atomic_weight * AMU))
+    return Species(el, charge, Maxwellian(dens, temp, vel, el.atomic_weight * AMU))
 
 
-def make_bfield(b0):
+def make_bfield(b0, form="fn"):
+    if form != "fn":
+        return Vector3D(*b0)            # a constant vector, autowrapped by the implementation
     return lambda x, y, z: Vector3D(b0[0] * g_b(x, y, z), b0[1] * g_b(x, y, z), b0[2] * g_b(x, y, z))
 
 
@@ -356,7 +438,10 @@ def expand(cfg, ev):
     """the single-evaluation case that describes the CURRENT configuration `cfg` for the evaluation `ev`"""
     sps = copy.deepcopy(cfg["species"])
     case = {"kind": ev["kind"], "exact": cfg.get("exact", False), "species": sps, "b0": list(cfg["b0"]),
-            "plasma_point": list(ev["plasma_point"])}
+            "b_form": cfg.get("b_form", "fn"), "plasma_point": list(ev["plasma_point"])}
+    for k in ("attach", "bes_ratios", "ls_kwargs", "line_np", "lineshape"):
+        if k in cfg:
+            case[k] = copy.deepcopy(cfg[k])
     if ev["kind"] == "plasma":
         return case
     case["beam"] = dict(cfg["beam"], dir=list(ev["dir"]))
@@ -377,34 +462,42 @@ def expand(cfg, ev):
     return case
 
 
+def composition_view(plasma):
+    """what the container itself reports: keys in iteration order, len, and whether get / [] return the iterated object"""
+    comp = plasma.composition
+    items = list(comp)
+    keys = [[ELEMENTS.index(sp.element), int(sp.charge)] for sp in items]
+    same = all(comp.get(sp.element, sp.charge) is sp and comp[(sp.element, sp.charge)] is sp for sp in items)
+    return {"keys": keys, "len": len(comp), "lookup_returns_member": bool(same)}
+
+
 class Scene:
-    """One Plasma + Beam with a live BeamCXLine and a live BeamEmissionLine attached.  `cfg` is the harness's own
-    record of the configuration (updated from the mutation, never read back from the implementation)."""
+    """One Plasma + Beam with a live BeamCXLine and a live BeamEmissionLine (attached through beam.models, or
+    configured through their constructors).  `cfg` is the harness's own record of the configuration (updated from
+    the mutation, never read back from the implementation)."""
 
     def __init__(self, cfg):
         self.cfg = copy.deepcopy(cfg)
         c = self.cfg
         self.log = []
-        self.plasma = Plasma()
-        self.plasma.b_field = make_bfield(c["b0"])
-        self.plasma.composition = [make_species(s) for s in c["species"]]
-        self.plasma.electron_distribution = Maxwellian(1.0e19, 100.0, Vector3D(0, 0, 0), 9.1093837015e-31)
+        self.ne_te = (1.0e19, 100.0)
+        self.plasma = self._new_plasma(c.get("species_raw") or c["species"], c.get("comp_form", "list"))
+        c.pop("species_raw", None)
         b = c["beam"]
-        self.beam = Beam()
-        self.beam.plasma = self.plasma
-        self.beam.atomic_data = HistData(c["prov"], self.log)
-        self.beam.energy = b["energy"]
-        self.beam.element = ELEMENTS[b["element"]]
-        self.beam.length = b["length"]
-        self.beam.temperature = 10.0
-        self.beam.attenuator = StubAttenuator(b["att0"], self.log)
-        ln = c["line"]
-        self.cx = BeamCXLine(Line(ELEMENTS[ln["el"]], ln["charge"], tuple(ln["transition"])), lineshape=Recorder)
-        self.bes = BeamEmissionLine(Line(ELEMENTS[b["element"]], 0, (3, 2)))
-        self.beam.models = [self.cx, self.bes]
+        self.data = HistData(c["prov"], self.log)
+        self.beam = build_beam({"beam": b}, self.plasma, self.data, self.log)
+        self.attached = c.get("attach", "models") == "models"
+        self.cx = make_cx_model(c, c["line"], self.beam, self.plasma, self.data)
+        self.bes = make_bes_model(c, b["element"], self.beam, self.plasma, self.data)
+        if self.attached:
+            self.beam.models = [self.cx, self.bes]
 
-    def _set_species(self, new):
-        self.cfg["species"] = copy.deepcopy(new)
+    def _new_plasma(self, raw, form="list"):
+        plasma = Plasma()
+        plasma.b_field = make_bfield(self.cfg["b0"], self.cfg.get("b_form", "fn"))
+        plasma.composition = composition_arg([make_species(s) for s in raw], form)
+        plasma.electron_distribution = LogElectrons(self.ne_te[0], self.ne_te[1], self.log)
+        return plasma
 
     def apply(self, step):
         """perform one mutation through the public API and record it in cfg"""
@@ -420,24 +513,33 @@ class Scene:
                 c["species"][keys.index((s["el"], s["charge"]))] = copy.deepcopy(s)
             else:
                 c["species"].append(copy.deepcopy(s))
-        elif op == "assign":
-            self.plasma.composition = [make_species(s) for s in step["species"]]
-            self._set_species(step["species"])
-        elif op == "set":
-            comp.set([make_species(s) for s in step["species"]])
-            self._set_species(step["species"])
-        elif op == "clear_readd":
-            comp.clear()
-            for s in step["species"]:
-                comp.add(make_species(s))
-            self._set_species(step["species"])
+        elif op in ("assign", "set", "clear_readd", "beam_plasma"):
+            raw = step.get("species_raw") or step["species"]
+            objs = [make_species(s) for s in raw]
+            if op == "assign":
+                self.plasma.composition = composition_arg(objs, step.get("comp_form", "list"))
+            elif op == "set":
+                comp.set(composition_arg(objs, step.get("comp_form", "list")))
+            elif op == "clear_readd":
+                comp.clear()
+                for o in objs:
+                    comp.add(o)
+            c["species"] = effective_species(raw)
+            if op == "beam_plasma":
+                # another Plasma object holding the new composition becomes the beam's plasma
+                self.plasma = self._new_plasma(raw, step.get("comp_form", "list"))
+                self.beam.plasma = self.plasma
+                if not self.attached:
+                    self.cx.plasma = self.plasma
+                    self.bes.plasma = self.plasma
         elif op == "b_field":
-            self.plasma.b_field = make_bfield(step["b0"])
-            c["b0"] = list(step["b0"])
+            c["b0"], c["b_form"] = list(step["b0"]), step.get("b_form", "fn")
+            self.plasma.b_field = make_bfield(c["b0"], c["b_form"])
         elif op == "electron":
-            self.plasma.electron_distribution = Maxwellian(step["ne"], step["te"], Vector3D(0, 0, 0), 9.1093837015e-31)
+            self.ne_te = (step["ne"], step["te"])
+            self.plasma.electron_distribution = LogElectrons(step["ne"], step["te"], self.log)
         elif op == "beam_energy":
-            self.beam.energy = step["energy"]
+            self.beam.energy = number_form(step["energy"], step.get("form", "float"))
             c["beam"]["energy"] = step["energy"]
         elif op == "beam_element":
             self.beam.element = ELEMENTS[step["element"]]
@@ -446,18 +548,53 @@ class Scene:
         elif op == "beam_temperature":
             self.beam.temperature = step["temperature"]
         elif op == "beam_length":
-            self.beam.length = step["length"]
+            self.beam.length = number_form(step["length"], step.get("form", "float"))
             c["beam"]["length"] = step["length"]
         elif op == "attenuator":
             self.beam.attenuator = StubAttenuator(step["att0"], self.log)
             c["beam"]["att0"] = step["att0"]
         elif op == "atomic_data":
-            self.beam.atomic_data = HistData(step["prov"], self.log)
+            self.data = HistData(step["prov"], self.log)
+            self.beam.atomic_data = self.data
+            if not self.attached:
+                self.cx.atomic_data = self.data
+                self.bes.atomic_data = self.data
             c["prov"] = copy.deepcopy(step["prov"])
         elif op == "cx_line":
             ln = step["line"]
             self.cx.line = Line(ELEMENTS[ln["el"]], ln["charge"], tuple(ln["transition"]))
             c["line"] = copy.deepcopy(ln)
+        elif op == "models_reset":
+            if self.attached:
+                self.beam.models = [self.bes, self.cx] if step.get("reversed") else [self.cx, self.bes]
+        elif op == "reassign_same":
+            # the same value / the same objects through the setter again: the configuration does not change
+            what = step["what"]
+            if what == "energy":
+                self.beam.energy = self.beam.energy
+            elif what == "element":
+                self.beam.element = self.beam.element
+            elif what == "length":
+                self.beam.length = self.beam.length
+            elif what == "composition":
+                self.plasma.composition = list(self.plasma.composition)
+            elif what == "add_same":
+                for sp in list(comp):
+                    comp.add(sp)
+            elif what == "line":
+                ln = c["line"]
+                self.cx.line = Line(ELEMENTS[ln["el"]], ln["charge"], tuple(ln["transition"]))
+                self.bes.line = self.bes.line
+            elif what == "b_field":
+                self.plasma.b_field = self.plasma.b_field
+            elif what == "atomic_data":
+                self.beam.atomic_data = self.data
+                if not self.attached:
+                    self.cx.atomic_data = self.data
+            elif what == "plasma":
+                self.beam.plasma = self.plasma
+            else:
+                raise ValueError(what)
         else:
             raise ValueError(op)
 
@@ -477,11 +614,14 @@ class Scene:
             except ValueError as e:
                 out["zeff"], out["code"], out["error"] = 0.0, 3, repr(e)
             out["log"] = []
+            out["composition"] = composition_view(self.plasma)
             return case, out
         bp, pp = Point3D(*ev["beam_point"]), Point3D(px, py, pz)
         direction, obs = Vector3D(*ev["dir"]), Vector3D(1.0, 0.0, 0.0)
-        out = (_eval_cx if ev["kind"] == "cx" else _eval_bes)(self.cx if ev["kind"] == "cx" else self.bes,
-                                                              bp, pp, direction, obs, log)
+        if ev["kind"] == "cx":
+            out = _eval_cx(self.cx, bp, pp, direction, obs, log, self.cfg.get("lineshape") == "default")
+        else:
+            out = _eval_bes(self.bes, bp, pp, direction, obs, log)
         # rate objects are tagged by (element, charge): translate to the position in the current composition
         keys = [(s["el"], s["charge"]) for s in self.cfg["species"]]
         conv, stale = [], []
@@ -640,7 +780,7 @@ def property_failures(case, out, k4pi, e_charge, amu):
                      % (out["radiance"], want, q))
     q_impl = out["radiance"] / (k4pi * nb * rs[2])
     lo, hi = min(qs.values()), max(qs.values())
-    if not (lo * (1 - 1e-9) <= q_impl <= hi * (1 + 1e-9)):
+    if want > 1e-280 and not (lo * (1 - 1e-9) <= q_impl <= hi * (1 + 1e-9)):
         fails.append("composite coefficient %r outside [%r, %r] of the individual coefficients" % (q_impl, lo, hi))
     if out.get("line_point") is not None and tuple(out["line_point"]) != tuple(case["plasma_point"]):
         fails.append("line shape rendered at %r instead of the plasma point" % (out["line_point"],))
